@@ -490,3 +490,41 @@ Fixpoint json_eqb (a b : json) {struct a} : bool :=
   end.
 
 Definition json_same (a b : json) : bool := json_eqb (json_drop_nulls a) (json_drop_nulls b).
+
+(* ------------------------------------------------------------------ guards of the guarded theorems *)
+(* all per-node classes of one name agree on a property that reduce_classes copies from group[0] *)
+Definition uniform_by {A} (f : fclass -> A) (eqb : A -> A -> bool) (all : list fclass) : bool :=
+  forallb (fun c => forallb (fun d => negb (str_eqb (c_qname c) (c_qname d)) || eqb (f c) (f d)) all) all.
+
+Definition g_nil_uniform (cv : sconv) (S : list tree) : bool :=
+  uniform_by c_nillable Bool.eqb (concat (map (map_tree cv) S)).
+Definition g_ns_uniform (cv : sconv) (S : list tree) : bool :=
+  uniform_by c_ns ostr_eqb (concat (map (map_tree cv) S)).
+
+(* ------------------------------------------------------------------ inferred types are kept *)
+(* the type (by qualified name) that build_attr_type / build_class gives to each part of a node *)
+Definition node_part_types (cv : sconv) (cns : option str) (n : tree) : list (attr * str) :=
+  map (fun kv => (part_key tag_ATTRIBUTE cns (fst kv), ty_qname (build_attr_type_str cv (fst kv) (Some (snd kv)))))
+      (filter (fun kv => negb (str_eqb (fst kv) qn_xsi_nil)) (t_atts n))
+  ++ map (fun k => (part_key tag_ELEMENT cns (t_qn k),
+                    if has_content k then class_qname cns k else ty_qname (build_attr_type_str cv (t_qn k) (t_text k))))
+         (filter named (t_kids n))
+  ++ (if truthy (t_text n)
+      then [(key_attr tag_SIMPLE_TYPE text_attr_name None, ty_qname (build_attr_type_str cv text_attr_name (t_text n)))]
+      else []).
+
+(* the datatypes ClassUtils.filter_types may remove: xs:error always, xs:anyType / xs:anySimpleType next to other types *)
+Definition removable_qname (q : str) : bool :=
+  existsb (fun m => str_eqb q (dt_qname m)) (filter_always ++ filter_when_many).
+
+Definition node_types_ok (cv : sconv) (cs : list fclass) (parent_ns : option str) (n : tree) : bool :=
+  let cns := class_ns parent_ns n in
+  match find_class cs (class_qname parent_ns n) with
+  | None => false
+  | Some c =>
+      forallb (fun kq => match find_attr c (fst kq) with
+                         | Some a => existsb (fun t => str_eqb (ty_qname t) (snd kq)) (a_types a) || removable_qname (snd kq)
+                         | None => false
+                         end) (node_part_types cv cns n)
+  end.
+Definition tree_types_ok (cv : sconv) (cs : list fclass) (t : tree) : bool := tree_all (node_types_ok cv cs) (root_ns t) t.
